@@ -45,7 +45,8 @@ def flagToIp (l : Layer) : Nat := (lookupTag TagsC05.flagToIp l.kind).getD 0xff
 /-! ### sizes -/
 
 def ipOptSize (opts : List (Nat × Bytes)) : Nat :=        -- IP::calculate_options_size
-  opts.foldl (fun acc (t, d) => acc + 1 + (if t / 32 % 4 ≠ 0 ∨ t % 32 > 1 then 1 + d.length else 0)) 0
+  -- `!is_single_byte_option`: copied != 0 || op_class != CONTROL || number > NOOP (fix KF-C02-Ip-1: same test as the writer)
+  opts.foldl (fun acc (t, d) => acc + 1 + (if t / 128 % 2 ≠ 0 ∨ t / 32 % 4 ≠ 0 ∨ t % 32 > 1 then 1 + d.length else 0)) 0
 
 def tcpOptSize (opts : List (Nat × Bytes)) : Nat :=       -- TCP::calculate_options_size
   opts.foldl (fun acc (t, d) => acc + 1 + (if d.length ≠ 0 ∨ t = 4 then 1 + d.length else 0)) 0
@@ -270,9 +271,10 @@ def write (l : Layer) (rest : List Layer) (inner : Bytes) (parent : Option Layer
       | some n => if pduToEther n != 0 then pduToEther n else proto
     w16 ptype ++ w16 lltype ++ w16 lllen ++ addr ++ w16 p ++ inner
   | .ah spi seq icv nh =>
+    -- the next header is overwritten only when the inner PDU maps to a known protocol (fix KF-C03-Ip-3)
     let nh := match nxt with
       | none => nh
-      | some n => flagToIp n
+      | some n => if flagToIp n ≠ 0xff then flagToIp n else nh
     [b8 nh, b8 ((12 + icv.length) / 4 - 2), 0, 0] ++ w32 spi ++ w32 seq ++ icv ++ inner
   | .esp spi seq => w32 spi ++ w32 seq ++ inner
   | _ => inner
